@@ -1,5 +1,5 @@
 PROP = {
-    "groups": ["progress"],
+    "groups": ["progress", "progress-session", "progress-session-e2e"],
     "rule": "real textProgressBar (export_verif_progress.go, clock pinned) vs extracted model, under the library's real RuneWidth/StringWidth "
             "values passed per case: getEllipsisString (corpus x maxima, random names), getProgressBar (lengths around the minimum, steps "
             "inside/at ties/beyond the size/negative, sizes to 2^62), getProgressText at every width 1..500 (+ -7, 0, 600, 1000, 5000) x names "
@@ -9,7 +9,15 @@ PROP = {
             "probe bar in lockstep supplying the real total/speed/ETA texts; every write and the final state compared. Direct oracles on the "
             "implementation: no panic, display width (SGR removed, runewidth.StringWidth) <= columns for columns >= 5, percentage in 0..100 and "
             "non-decreasing within a file, bar cells add up; premises of the theorems checked on every string (StringWidth <= sum of RuneWidth, "
-            "RuneWidth in 0..2). Non-trivial = everything except ellipsis calls that do not cut and bars below the minimum length.",
+            "RuneWidth in 0..2). Non-trivial = everything except ellipsis calls that do not cut and bars below the minimum length. "
+            "Group progress-session: a bare TrzszFilter (export VerifSession) through histories of {SetTerminalColumns at any moment, "
+            "createProgressBar (quiet or not, any announced pane width), the callbacks of the running transfer, the real confirmStopTransfer "
+            "answered with 'continue', resetProgressBar}, one to three transfers per session, every write and the final width state compared with "
+            "the model's sess_step; oracles: no line wider than the most recent width the session was told, the session remembers it, a resize "
+            "reaches the live bar, a new bar / the bar after the prompt is laid out for the current width. Group progress-session-e2e: the real "
+            "client (NewTrzszFilter over pipes) through sessions of two or three consecutive real tsz/trz transfers with resizes while idle, while a "
+            "transfer runs (link held), before and during an open stop prompt; every progress line that reaches the terminal is measured against "
+            "the most recent width and the widths of the lines with a bar are compared with the model's layout width.",
     "trusted": [
         "modelled, not verified: github.com/mattn/go-runewidth (RuneWidth, StringWidth) and the terminal's rendering - premises width_model; "
         "binary64 arithmetic of math.Round(k*a/b) - premises round_model (the exact-rational instance is proved to satisfy them and is what the "
@@ -28,7 +36,8 @@ PROP = {
 TEXT = {
     "text": "Machine-checked proof over an executable model of progress.go (ellipsis, the layout ladder generated statement by statement from "
             "getProgressText, bar cell arithmetic, percentage, and the onNum/onName/onSize/onStep/onDone/setPreSize/setPause/setTerminalColumns "
-            "state machine with the redraw throttle): for every call history and every input the rendering never has a negative repeat count, "
+            "state machine with the redraw throttle; and of the client session around it: options.TerminalColumns, createProgressBar, SetTerminalColumns "
+            "with and without a live bar, the stop prompt, resetProgressBar): for every call history and every input the rendering never has a negative repeat count, "
             "every line is at most as wide as the terminal from 4 columns up, the percentage is within 0..100, is what the line shows, and never "
             "decreases within a file. The defect of the code before the clamp fix (step beyond size, negative size) is kept as a refutation with "
             "its witness. The model is tied to the code by regenerated constants/ladder, pinned function texts, and differential execution.",
